@@ -37,6 +37,12 @@ Fixed finding with a replay that fails on 59274db: replays/C09/F01-multivalued-c
 
 All three open findings disappear (0 violations, no KNOWN-FINDING line) on a scratch copy with the proposed patches.
 
+Corrections (oracle over-reach): a redirect whose resolved target is not http(s) (ftp:, file:, javascript:, mailto:) was
+required to end in an error (`C09.final_error_expected`), which is merely what the current code does (ValueError
+"Unsupported url scheme" from the follow-up).  The statement bounds redirects from above and demands exactly-once completion;
+declining to follow and returning the 3xx itself is the documented alternative.  Now an EITHER class: any error, or the
+redirect response itself (its own status), exactly once, no request for that hop, all earlier hops checked fully.
+
 Oracle corrections made while building (false alarms, not findings): a malformed *body* in the response to a HEAD
 request is never read, so that terminal hop is a success; "Exception in callback" log records are not asserted in the
 admission part (a connect that fails after its fetch already timed out is logged by design).
@@ -419,7 +425,7 @@ def run_admission(ctx, case):
 # =========================================================================== part B: redirect chains
 LOC_KINDS = ["rel_abs_path", "rel_path", "dotdot", "abs_same", "other_host", "other_port", "other_scheme",
              "scheme_rel", "userinfo_other", "userinfo_same", "upper_host", "default_port", "back_origin",
-             "fragment", "ftp", "none", "long_path",
+             "fragment", "ftp", "file", "javascript", "mailto", "none", "long_path",
              # Location values the client cannot turn into a follow-up request (urllib raises ValueError while the new URL
              # is built or inspected, or the target is unusable): the statement only requires that the fetch settles
              "bad_bracket", "bad_bracket_rel", "bad_port_range", "bad_port_alpha", "userinfo_bad_port",
@@ -515,6 +521,12 @@ def make_location(kind, cur, orig, idx):
         return "/%s#frag" % m
     if kind == "ftp":
         return "ftp://files.test/%s" % m
+    if kind == "file":
+        return "file:///etc/%s" % m
+    if kind == "javascript":
+        return "javascript:alert(%d)" % idx
+    if kind == "mailto":
+        return "mailto:%s@files.test" % m
     if kind == "none":
         return None
     if kind == "long_path":
@@ -560,7 +572,8 @@ def plan_chain(case):
     rewritten = False
     either_method = False
     facts = {"followed_interim": False, "producer_rewrite": False, "followup_failure": False, "cross_with_creds": False,
-             "followed": 0, "post_303": False, "malformed_location": False}
+             "followed": 0, "post_303": False, "malformed_location": False,
+             "unsupported_scheme": False}
     i = 0
     while True:
         expected.append({"url": url, "method": method, "body": body, "producer": producer, "rewritten": rewritten,
@@ -588,9 +601,11 @@ def plan_chain(case):
                     facts["followed_interim"] = True
                 remaining -= 1
                 if urlsplit(new_url).scheme not in ("http", "https"):
-                    outcome = ("error", "unsupported_scheme")
-                    if True:
-                        facts["followup_failure"] = True
+                    # EITHER: the client cannot follow this target - it may fail, or decline to follow and hand out
+                    # the 3xx itself (the documented alternative to following); no request goes anywhere for this hop
+                    outcome = ("settle", "unsupported_scheme", hop["status"])
+                    facts["followup_failure"] = True
+                    facts["unsupported_scheme"] = True
                     break
                 s = hop["status"]
                 if (s == 303 and method != "HEAD") or (s in (301, 302) and method == "POST"):
@@ -782,7 +797,7 @@ def run_redirects(ctx, case):
     # ---- number and destination of requests
     if len(received) > case["max_redirects"] + 1 or (not case["follow"] and len(received) > 1):
         ctx.fail("C09.more_requests_than_max_redirects", base, sig=sig_interim or "C09.more_requests_than_max_redirects")
-    elif want[0] == "settle" and len(received) >= len(expected):
+    elif want[0] == "settle" and want[1] != "unsupported_scheme" and len(received) >= len(expected):
         pass  # a best-effort follow-up for an unusable Location is allowed (still bounded by max_redirects above)
     elif len(received) != len(expected):
         # attribute by symptom: extra requests are the duplicates of the interim finding, missing ones come from a
@@ -842,7 +857,9 @@ def run_redirects(ctx, case):
     # ---- final outcome
     if o[0] != "pending":
         if want[0] == "settle":
-            pass
+            if want[1] == "unsupported_scheme" and o[0] == "response" and o[1].code != want[2]:
+                # not followed => it is the redirect response itself that is handed out
+                ctx.fail("C09.unfollowed_redirect_wrong_response", dict(base, want_code=want[2]))
         elif want[0] == "response":
             if o[0] != "response" or o[1].code != want[1] or (case_method_has_body(expected[-1]) and o[1].body != want[2]):
                 ctx.fail("C09.final_response", base, sig=sig_producer or sig_interim or "C09.final_response")
@@ -854,7 +871,7 @@ def run_redirects(ctx, case):
     if o[0] != "pending" and st_.get("probe") != "done":
         ctx.fail("C09.later_fetch_blocked", dict(base, probe=st_.get("probe"), state=st_["idle"]))
     bad = [r for r in logs.errors() if "Exception in callback" in r[2] or "ncaught" in r[2]]
-    if want[0] == "settle":
+    if want[0] == "settle" and want[1] != "unsupported_scheme":
         bad = []  # a ValueError from urllib while the follow-up is built is logged ("Uncaught exception") by design
     if bad:
         if o[0] == "pending":
@@ -890,6 +907,8 @@ def run_redirects(ctx, case):
         labels.add("interim_before_followed_redirect")
     if facts["followup_failure"]:
         labels.add("followup_failure")
+    if facts["unsupported_scheme"]:
+        labels.add("unsupported_scheme_outcome_" + o[0])
     if facts["malformed_location"]:
         labels.add("malformed_location")
         labels.add("malformed_location_outcome_" + o[0])
